@@ -262,7 +262,7 @@ fn u6_dua_releases() {
     let p = Rc::new(Probe(2));
     let (k1, k2): (usize, usize) = (kani::any(), kani::any());
     let pre = setup2(&x, &p, k1, k2);
-    kani::assume(pre.wx == 1 && k1 + k2 >= 1);
+    kani::assume(pre.wx == 1 && (k1 >= 1 || k2 >= 1));
     let raw = x.ptr.as_ptr();
     let mut h = alias(&x);
     unsafe { drop_unreachable_with_adoptions(&mut h) };
@@ -280,7 +280,7 @@ fn u6_dua_releases() {
 fn u6_dua_self_adopted() {
     let x = Rc::new(Probe(1));
     let (w, f, l): (usize, usize, usize) = (kani::any(), kani::any(), kani::any());
-    kani::assume(w >= 2 && f + l >= 1 && f < MAX && l < MAX);
+    kani::assume(w >= 2 && (f >= 1 || l >= 1));
     set_counts(&x, 0, w);
     install(&x, fwd(&x), f);
     install(&x, bwd(&x), f);
